@@ -4,6 +4,7 @@
 #include <cstdlib>
 #include <cstring>
 #include <fstream>
+#include <functional>
 #include <set>
 #include <sstream>
 #include <sys/wait.h>
@@ -30,13 +31,19 @@ static const char *arg(int argc, char **argv, const char *name, const char *dflt
 static bool flag(int argc, char **argv, const char *name) { for (int i = 2; i < argc; i++) if (!std::strcmp(argv[i], name)) return true; return false; }
 
 struct Outcome { std::string cls, site; bool violated = false; };
+// Calls that the same worker process executed *before* the failing one.  A library with state of static or thread storage duration (a memo keyed
+// by address, a per-thread scratch stream) carries it from one call into the next, so a violation may need its predecessors in order to show; a
+// replay is then a sequence of plans.  Empty on a tree without such state.
+static std::vector<Plan> g_prefix;
+static void run_prefix() { for (const Plan &q : g_prefix) { simrt::run_deadline(60); (void)run_plan(q, nullptr, nullptr); } simrt::run_deadline(0); }
 static Outcome run_forked(const Plan &p) {
     Outcome out; int fd[2];
     if (pipe(fd) != 0) { out.cls = "infra"; return out; }
     std::fflush(stdout);
     pid_t pid = fork();
     if (pid == 0) {
-        close(fd[0]); dup2(fd[1], 1); close(fd[1]); alarm(20);
+        close(fd[0]); dup2(fd[1], 1); close(fd[1]); alarm(g_prefix.empty() ? 20 : 120);
+        run_prefix();
         RunResult rr = run_plan(p, nullptr, nullptr);
         if (rr.viol.set) std::printf("V class=%s site=%s\n", rr.viol.cls.c_str(), one_line(rr.viol.site).c_str()); else std::printf("OK\n");
         std::fflush(stdout); _exit(0);
@@ -58,9 +65,9 @@ static Outcome run_forked(const Plan &p) {
     return out;
 }
 
-static Plan shrink(const Plan &orig, const Outcome &want, unsigned &tries) {
+static Plan shrink(const Plan &orig, const std::function<bool(const Plan &)> &holds, unsigned &tries) {
     Plan best = orig;
-    auto still = [&](const Plan &c) { ++tries; Outcome o = run_forked(c); return o.violated && o.cls == want.cls; };
+    auto still = [&](const Plan &c) { ++tries; return holds(c); };
     bool progress = true;
     while (progress && tries < 1500) {
         progress = false;
@@ -96,7 +103,18 @@ static bool write_replay(const std::string &path, const Plan &p, const Outcome &
     const char *variant = std::getenv("SIM_VARIANT");
     f << "{\n  \"engine\": \"simC\",\n  \"variant\": \"" << (variant ? variant : "plain") << "\",\n  \"property\": \"C17\",\n  \"verif_seed\": " << base << ",\n  \"index\": " << index
       << ",\n  \"run_seed\": " << p.seed << ",\n  \"class\": \"" << json_escape(o.cls) << "\",\n  \"site\": \"" << json_escape(o.site) << "\",\n  \"message\": \"" << json_escape(msg)
-      << "\",\n  \"original_items\": " << before << ",\n  \"minimised_items\": " << (p.segs.size() + p.args.size() + p.sinks.size()) << ",\n  \"shrink_executions\": " << tries << ",\n  \"plan\": [\n";
+      << "\",\n";
+    if (!g_prefix.empty()) {
+        f << "  \"note\": \"the library under test keeps state between calls: the plans under earlier_histories are executed first, in this order, in the same process\",\n  \"earlier_histories\": [";
+        for (size_t k = 0; k < g_prefix.size(); k++) {
+            f << (k ? ",\n    {\"ops\": [\n" : "\n    {\"ops\": [\n");
+            std::istringstream ps(plan_to_text(g_prefix[k])); std::string pl; bool pf = true;
+            while (std::getline(ps, pl)) { f << (pf ? "      \"" : ",\n      \"") << json_escape(pl) << "\""; pf = false; }
+            f << "\n    ]}";
+        }
+        f << "\n  ],\n";
+    }
+    f << "  \"original_items\": " << before << ",\n  \"minimised_items\": " << (p.segs.size() + p.args.size() + p.sinks.size()) << ",\n  \"shrink_executions\": " << tries << ",\n  \"plan\": [\n";
     std::istringstream is(plan_to_text(p)); std::string line; bool first = true;
     while (std::getline(is, line)) { f << (first ? "    \"" : ",\n    \"") << json_escape(line) << "\""; first = false; }
     f << "\n  ]\n}\n";
@@ -106,6 +124,19 @@ static bool read_replay(const std::string &path, Plan &p, std::string &cls, std:
     std::ifstream f(path); if (!f) { err = "cannot open " + path; return false; }
     std::stringstream ss; ss << f.rdbuf(); std::string all = ss.str();
     size_t c0 = all.find("\"class\": \""); if (c0 != std::string::npos) { c0 += 10; cls = all.substr(c0, all.find('"', c0) - c0); }
+    auto lines_of = [](const std::string &body) { std::string text; size_t pos = 0;
+        while ((pos = body.find('"', pos)) != std::string::npos) { size_t q = body.find('"', pos + 1); if (q == std::string::npos) break; text += body.substr(pos + 1, q - pos - 1) + "\n"; pos = q + 1; }
+        return text; };
+    g_prefix.clear();
+    size_t h0 = all.find("\"earlier_histories\": [");
+    if (h0 != std::string::npos) {
+        size_t hend = all.find("\n  ],", h0), o = h0;
+        while ((o = all.find("{\"ops\": [", o)) != std::string::npos && o < hend) {
+            size_t e2 = all.find("]}", o); Plan q; std::string er2;
+            if (!plan_from_text(lines_of(all.substr(o + 9, e2 - o - 9)), q, er2)) { err = "earlier history: " + er2; return false; }
+            g_prefix.push_back(q); o = e2;
+        }
+    }
     size_t p0 = all.find("\"plan\": ["); if (p0 == std::string::npos) { err = "no plan"; return false; }
     size_t e = all.find(']', p0); std::string body = all.substr(p0 + 9, e - p0 - 9), text; size_t pos = 0;
     while ((pos = body.find('"', pos)) != std::string::npos) { size_t q = body.find('"', pos + 1); if (q == std::string::npos) break; text += body.substr(pos + 1, q - pos - 1) + "\n"; pos = q + 1; }
@@ -166,21 +197,49 @@ int main(int argc, char **argv) {
         uint64_t i = std::strtoull(arg(argc, argv, "--index", "0"), nullptr, 10); const char *out = arg(argc, argv, "--out", "replay.json");
         Plan p = gen_plan(run_seed(base, i));
         Outcome a = run_forked(p), b = run_forked(p);
-        if (!a.violated || !b.violated || a.cls != b.cls) { std::printf("NOREPRO first=%s second=%s\n", a.violated ? a.cls.c_str() : "ok", b.violated ? b.cls.c_str() : "ok"); return 2; }
         unsigned tries = 0; size_t before = p.segs.size() + p.args.size() + p.sinks.size();
-        Plan m = shrink(p, a, tries);
+        const char *cs = arg(argc, argv, "--chain-start", nullptr);
+        if ((!a.violated || !b.violated || a.cls != b.cls) && cs) {
+            // not from its own plan alone: re-execute what the worker had executed before it in the same process (see g_prefix), minimise the predecessors
+            uint64_t c0 = std::strtoull(cs, nullptr, 10), stride = std::strtoull(arg(argc, argv, "--chain-stride", "1"), nullptr, 10); if (!stride) stride = 1;
+            for (uint64_t j = c0; j < i && g_prefix.size() < 8000; j += stride) g_prefix.push_back(gen_plan(run_seed(base, j)));
+            a = run_forked(p); b = run_forked(p);
+            if (a.violated && b.violated && a.cls == b.cls) {
+                struct timespec t0; clock_gettime(CLOCK_MONOTONIC, &t0);
+                auto elapsed = [&] { struct timespec t1; clock_gettime(CLOCK_MONOTONIC, &t1); return (t1.tv_sec - t0.tv_sec) + (t1.tv_nsec - t0.tv_nsec) * 1e-9; };
+                auto holds_with = [&](const std::vector<Plan> &pre) { std::vector<Plan> keep; keep.swap(g_prefix); g_prefix = pre; ++tries; Outcome o = run_forked(p); g_prefix.swap(keep); return o.violated && o.cls == a.cls; };
+                std::vector<Plan> best = g_prefix; size_t chunk = std::max<size_t>(1, best.size() / 2);
+                while (chunk >= 1 && elapsed() < 90) {
+                    bool removed = false;
+                    for (size_t st = 0; st < best.size() && elapsed() < 90;) { std::vector<Plan> cand = best; size_t en = std::min(best.size(), st + chunk); cand.erase(cand.begin() + st, cand.begin() + en); if (holds_with(cand)) { best = cand; removed = true; } else st += chunk; }
+                    if (chunk == 1 && !removed) break;
+                    if (!removed) chunk /= 2; else chunk = std::min(chunk, std::max<size_t>(1, best.size() / 2));
+                    if (chunk == 0) break;
+                }
+                g_prefix = best;
+                for (size_t k = 0; k < g_prefix.size() && k < 8 && elapsed() < 150; k++) {
+                    Plan orig = g_prefix[k];
+                    g_prefix[k] = shrink(orig, [&](const Plan &cand) { Plan keep = g_prefix[k]; g_prefix[k] = cand; Outcome o = run_forked(p); g_prefix[k] = keep; return o.violated && o.cls == a.cls; }, tries);
+                    Outcome chk = run_forked(p); if (!chk.violated || chk.cls != a.cls) g_prefix[k] = orig;
+                }
+            }
+        }
+        if (!a.violated || !b.violated || a.cls != b.cls) { std::printf("NOREPRO first=%s second=%s\n", a.violated ? a.cls.c_str() : "ok", b.violated ? b.cls.c_str() : "ok"); return 2; }
+        Plan m = shrink(p, [&](const Plan &cand) { Outcome o = run_forked(cand); return o.violated && o.cls == a.cls; }, tries);
         Outcome fin = run_forked(m); if (!fin.violated || fin.cls != a.cls) { m = p; fin = a; }
         std::string msg;
-        { int fd[2]; if (pipe(fd) == 0) { pid_t pid = fork(); if (pid == 0) { close(fd[0]); alarm(20); RunResult r2 = run_plan(m, nullptr, nullptr); ssize_t w = write(fd[1], r2.viol.msg.data(), r2.viol.msg.size()); (void)w; _exit(0); }
+        { int fd[2]; if (pipe(fd) == 0) { pid_t pid = fork(); if (pid == 0) { close(fd[0]); alarm(120); run_prefix(); RunResult r2 = run_plan(m, nullptr, nullptr); ssize_t w = write(fd[1], r2.viol.msg.data(), r2.viol.msg.size()); (void)w; _exit(0); }
             close(fd[1]); char tmp[1024]; ssize_t n; while ((n = read(fd[0], tmp, sizeof tmp)) > 0) msg.append(tmp, (size_t)n); close(fd[0]); int st; waitpid(pid, &st, 0); } }
         if (!write_replay(out, m, fin, msg, base, i, tries, before)) { std::printf("cannot write %s\n", out); return 2; }
-        std::printf("SHRUNK class=%s site=%s ops=%zu->%zu executions=%u file=%s\n", fin.cls.c_str(), fin.site.c_str(), before, m.segs.size() + m.args.size() + m.sinks.size(), tries, out);
+        if (g_prefix.empty()) std::printf("SHRUNK class=%s site=%s ops=%zu->%zu executions=%u file=%s\n", fin.cls.c_str(), fin.site.c_str(), before, m.segs.size() + m.args.size() + m.sinks.size(), tries, out);
+        else std::printf("SHRUNK class=%s site=%s ops=%zu->%zu earlier_calls=%zu (the library keeps state between calls) executions=%u file=%s\n", fin.cls.c_str(), fin.site.c_str(), before, m.segs.size() + m.args.size() + m.sinks.size(), g_prefix.size(), tries, out);
         return 0;
     }
     if (cmd == "replay") {
         Plan p; std::string cls, err;
         if (argc < 3 || !read_replay(argv[2], p, cls, err)) { std::fprintf(stderr, "%s\n", err.c_str()); return 2; }
         if (flag(argc, argv, "--show")) std::fputs(plan_to_text(p).c_str(), stdout);
+        run_prefix();
         RunResult rr = run_plan(p, nullptr, nullptr);
         if (rr.viol.set) { std::printf("V i=0 runseed=%llu class=%s step=0 site=%s msg=%s\n", (unsigned long long)p.seed, rr.viol.cls.c_str(), one_line(rr.viol.site).c_str(), one_line(rr.viol.msg).c_str()); return 1; }
         std::printf("OK no violation (expected class %s)\n", cls.c_str()); return 0;
